@@ -83,6 +83,11 @@ class Tracer:
                 d['am'] = float(e.available_margin)
             except Exception as ex:  # position without strategy etc.
                 d['am'] = f'raise:{type(ex).__name__}'
+            try:
+                from jesse.store import store
+                d['curs'] = {p.symbol: p.current_price for p in store.positions.storage.values() if p.exchange_name == exchange}
+            except Exception:
+                pass
         else:
             d['stop_sum'] = dict(e.stop_orders_sum)
             d['limit_sum'] = dict(e.limit_orders_sum)
